@@ -20,6 +20,8 @@ mod extract;
 mod c01;
 mod c02;
 mod tables;
+mod c13;
+mod tables_prec;
 
 fn main() {
     util::silence_panics();
@@ -84,6 +86,7 @@ fn main() {
                 "C17" => c17::run(&params),
                 "C01" => c01::run(&params),
                 "C02" => c02::run(&params),
+                "C13" => c13::run(&params),
                 _ => { eprintln!("unknown property {}", id); std::process::exit(2); }
             };
             // the witnesses of this property run as part of every check (regression corpus)
